@@ -1,6 +1,8 @@
 (* C02 — valid use never leaves the caller's memory, never allocates, never hits UB.
-   Own legs: default-initialised objects (C02/Model.v).  The component theorems are collected in
-   Properties_containers.v, Properties_strings.v, Properties_algorithms.v, Properties_arith.v, Properties_wrappers.v. *)
+   Own legs: default-initialised objects (C02/Model.v), to_floating_point (C02/ModelFp.v), from_floating_point
+   (C02/ModelFf.v).  The property statement for mixed programs over the container families is Properties_program.v; the
+   component theorems are collected in Properties_containers.v, Properties_strings.v, Properties_algorithms.v,
+   Properties_arith.v, Properties_wrappers.v. *)
 From Tetl Require Import Lib.Base C02.Model.
 From Tetl Require C08.Model C08.Spec C08.Core C08.ProofsPtr C08.Properties C02.ModelFp C02.ProofsFp C02.ModelFf C02.ProofsFf.
 Local Open Scope Z_scope.
